@@ -49,6 +49,10 @@ type ClientConn struct {
 	mu      sync.Mutex
 	replyCh map[uint32]chan message.Request
 
+	// disconnectMu orders stream messages against Disconnect: nothing of a stream follows it on the wire.
+	disconnectMu   sync.RWMutex
+	disconnectSent bool
+
 	logger log.Logger
 
 	protocolVersion string
@@ -390,6 +394,9 @@ func (c *ClientConn) Close() error {
 
 // SendDisconnectは、Disconnectメッセージを送信します。
 func (c *ClientConn) SendDisconnect(ctx context.Context, msg *message.Disconnect) error {
+	c.disconnectMu.Lock()
+	c.disconnectSent = true
+	c.disconnectMu.Unlock()
 	return c.transport.Write(msg)
 }
 
@@ -490,6 +497,11 @@ func (c *ClientConn) SendUpstreamResumeRequest(ctx context.Context, req *message
 
 // SendUpstreamChunkは、UpstreamChunkを送信します。
 func (c *ClientConn) SendUpstreamChunk(ctx context.Context, req *message.UpstreamChunk) error {
+	c.disconnectMu.RLock()
+	defer c.disconnectMu.RUnlock()
+	if c.disconnectSent {
+		return errors.ErrConnectionClosed
+	}
 	c.upstreams.mu.RLock()
 	tr, ok := c.upstreams.messageWriters[req.StreamIDAlias]
 	c.upstreams.mu.RUnlock()
@@ -684,6 +696,11 @@ func (c *ClientConn) SendDownstreamCloseRequest(ctx context.Context, req *messag
 
 // SendDownstreamDataPointsAckは、DownstreamMetadataAckを送信します。
 func (c *ClientConn) SendDownstreamDataPointsAck(ctx context.Context, ack *message.DownstreamChunkAck) error {
+	c.disconnectMu.RLock()
+	defer c.disconnectMu.RUnlock()
+	if c.disconnectSent {
+		return errors.ErrConnectionClosed
+	}
 	return c.transport.Write(ack)
 }
 
